@@ -76,9 +76,9 @@ def logical(case, n, seed):
         "int": 42 + n + 1000 * seed, "neg": -17 - n - 1000 * seed, "float": 2.3 + n / 4.0 + seed, "bool": (n + seed) % 2 == 0,
         "bigint": 9007199254740993 + 2 * (n + 1000 * seed), "nested": {"a": {"b": "deep-%s" % eid}}, "array": [1, "two-%s" % eid],
         "m_int": 42 + n, "m_frac": 3.7 + n + seed, "m_neg": -2.25 - n - seed, "m_big": 1e15 + n * 7 + seed, "m_small": 1.5e-9 * (n + 1 + seed),
-        "m_tagnan": 1.0 + n, "m_tagunicode": 2.0 + n,
+        "m_tagnan": 1.0 + n, "m_tagunicode": 2.0 + n, "m_tagescapes": 3.0 + n,
     }[k]
-    tag = {"m_tagnan": "BaNaNa-%s" % eid, "m_tagunicode": "héllo-世-%s" % eid}.get(k, "v-%s" % eid)
+    tag = {"m_tagnan": "BaNaNa-%s" % eid, "m_tagunicode": "héllo-世-%s" % eid, "m_tagescapes": 'q"uo\\te&<t>-%s' % eid}.get(k, "v-%s" % eid)
     ev_ms = BASE_MS + n * 1000 + 123 + 7 * seed
     e = {"eid": eid, "kind": k, "value": v, "tag": tag, "level": case["level"], "ids": case["ids"], "unit": case["time"],
          "pos": case["pos"], "body": "line of %s" % eid,
@@ -86,7 +86,7 @@ def logical(case, n, seed):
     u = case["time"]
     if u == "none":
         e["want_ms"] = None
-    elif u == "s":
+    elif u in ("s", "s_str"):
         e["want_ms"] = (ev_ms // 1000) * 1000
     else:
         e["want_ms"] = ev_ms
@@ -102,6 +102,12 @@ def time_value(e):
         return ms / 1000.0
     if u == "ms":
         return ms
+    if u == "s_str":
+        return str(ms // 1000)
+    if u == "s_frac_str":
+        return "%d.%03d" % (ms // 1000, ms % 1000)
+    if u == "ms_str":
+        return str(ms)
     if u == "ns":
         return ms * 1_000_000 + 456_789
     if u == "ns_str":
@@ -132,9 +138,11 @@ def batch_of(case, n, seed):
         x["case_event"] = x is e
         x["res"] = j if shape == "sibling_resources" else 0
         x["scope"] = j if shape == "sibling_scopes" else 0
-        x["own"] = {"only_" + x["eid"]: "o-" + x["eid"]}
-        x["own_scope"] = {"sc_" + x["eid"]: "s-" + x["eid"]} if shape == "sibling_scopes" else {}
-        x["own_res"] = {"rs_" + x["eid"]: "r-" + x["eid"]} if shape == "sibling_resources" else {}
+        # for the escape-bearing kinds EVERY attribute value of the event needs JSON escaping (several escaped values per datapoint)
+        dec = {"m_tagescapes": '"\\&<>', "m_tagunicode": "é世", "unicode": 'é"\\'}.get(x["kind"], "")
+        x["own"] = {"only_" + x["eid"]: "o%s-%s" % (dec, x["eid"])}
+        x["own_scope"] = {"sc_" + x["eid"]: "s%s-%s" % (dec, x["eid"])} if shape == "sibling_scopes" else {}
+        x["own_res"] = {"rs_" + x["eid"]: "r%s-%s" % (dec, x["eid"])} if shape == "sibling_resources" else {}
         x["mates"] = [y["eid"] for y in evs if y is not x]
     return evs
 
@@ -410,7 +418,7 @@ def judge_log(proto, e, recs, window):
         if not (isinstance(ts, int) and window[0] - 5 <= ts <= window[1] + 5):
             out.append(("C16:%s:time:not-arrival-for-timeless-event" % proto, "event without time stored at %s, arrival window %s" % (ts, window)))
     else:
-        if isinstance(ts, int) and abs(ts - e["want_ms"]) <= (1 if e["unit"] == "s_frac" else 0):
+        if isinstance(ts, int) and abs(ts - e["want_ms"]) <= (1 if e["unit"] in ("s_frac", "s_frac_str") else 0):
             pass
         elif isinstance(ts, int) and window[0] - 5 <= ts <= window[1] + 5:
             out.append(("C16:%s:time:arrival-used-although-event-has-time" % proto, "event time %s (%s: %r) but stored at arrival time %s" % (
@@ -505,7 +513,8 @@ def run_protocol(binary, proto, cases, seed):
             t0 = int(time.time() * 1000)
             answers = send(dr, proto, evs)
             t1 = int(time.time() * 1000)
-            bad = [a for a in answers if a.get("status") not in (200, 201)]
+            bad = [a for a in answers if a.get("status") not in (200, 201) or
+                   (isinstance(a.get("body"), dict) and isinstance(a["body"].get("failed"), int) and a["body"]["failed"] > 0)]
             sent.append((n, c, evs, (t0, t1), bad))
         if proto in LOG_INDEX:
             dr.ok("flush")
